@@ -718,11 +718,13 @@ func (obj *SparseInt8Matrix) JointIterator(b ConstMatrix) MatrixJointIterator {
 }
 func (obj *SparseInt8Matrix) ITERATOR() *SparseInt8MatrixIterator {
   r := SparseInt8MatrixIterator{*obj.values.ITERATOR(), obj}
+  r.skipOutside()
   return &r
 }
 func (obj *SparseInt8Matrix) ITERATOR_FROM(i, j int) *SparseInt8MatrixIterator {
   k := obj.index(i, j)
   r := SparseInt8MatrixIterator{*obj.values.ITERATOR_FROM(k), obj}
+  r.skipOutside()
   return &r
 }
 func (obj *SparseInt8Matrix) JOINT_ITERATOR(b ConstMatrix) *SparseInt8MatrixJointIterator {
@@ -743,6 +745,20 @@ type SparseInt8MatrixIterator struct {
 }
 func (obj *SparseInt8MatrixIterator) Index() (int, int) {
   return obj.m.ij(obj.SparseInt8VectorIterator.Index())
+}
+func (obj *SparseInt8MatrixIterator) Next() {
+  obj.SparseInt8VectorIterator.Next()
+  obj.skipOutside()
+}
+// the underlying vector also holds the entries of the parent matrix that lie
+// outside a sub-matrix view: skip them
+func (obj *SparseInt8MatrixIterator) skipOutside() {
+  for obj.SparseInt8VectorIterator.Ok() {
+    if i, j := obj.Index(); i >= 0 && i < obj.m.rows && j >= 0 && j < obj.m.cols {
+      return
+    }
+    obj.SparseInt8VectorIterator.Next()
+  }
 }
 func (obj *SparseInt8MatrixIterator) Clone() *SparseInt8MatrixIterator {
   return &SparseInt8MatrixIterator{*obj.SparseInt8VectorIterator.Clone(), obj.m}
